@@ -94,8 +94,10 @@ def plan(tier, seed):
         texts.append(["gen", "mol2", i])
         texts.append(["gen", "xyz", i])
     texts.append(["gen-short-header", "mol2", 0])
+    texts.append(["gen-foreign-blocks", "mol2", 0])
     if not quick:
         texts += [["gen-short-header", "mol2", i] for i in range(1, 4)]
+        texts += [["gen-foreign-blocks", "mol2", i] for i in range(1, 4)]
         texts += [["concat", "mol2", "dmf.mol2+dummy.mol2+isornitrate.mol2+propyne.mol2"],
                   ["concat", "mol2", "benzene.mol2+isornitrate.mol2"]]
     n_tok = 260 if quick else 2600
@@ -149,6 +151,20 @@ def build_text(tid, ctx):
     if fmt == "xyz":
         return "".join(m.dumps_xyz() for m in mols)
     text = "".join(m.dumps_mol2() for m in mols)
+    if kind == "gen-foreign-blocks":
+        # the same records as another program would write them: with TRIPOS blocks molli does not interpret
+        # (SUBSTRUCTURE, COMMENT, CRYSIN) in front of the ATOM and / or the BOND section
+        lines = []
+        k = 0
+        for ln in text.splitlines(keepends=True):
+            if ln.startswith("@<TRIPOS>ATOM") and k % 3 != 2:
+                lines += ["@<TRIPOS>SUBSTRUCTURE\n", "     1 UNL1        1 TEMP              0 ****  ****    0 ROOT\n"]
+            if ln.startswith("@<TRIPOS>BOND"):
+                if k % 3 != 0:
+                    lines += ["@<TRIPOS>COMMENT\n", "written by a foreign program\n"]
+                k += 1
+            lines.append(ln)
+        text = "".join(lines)
     if kind == "gen-short-header":
         # the same records with the two-field counts line "n_atoms n_bonds" (legal TRIPOS) and no comment lines
         lines = []
